@@ -121,6 +121,7 @@ def run_case(case, ctx):
             mon.events["stream_raised"] += 1
             return {"st": "skip", "sig": "stream-raises:%s (C01)" % type(e).__name__, "key": key, "cls": cls}
         norm = mon.case_norm if mon.case_norm is not None else ""
+        ctx["feats"] |= mon.feats
         for p in stream:
             if p is None or p.resolution is None:
                 continue
@@ -135,6 +136,24 @@ def run_case(case, ctx):
         sig = "+".join(tags) + ("/latent" if all(f[1] for f in found) else "")
         return C.viol(sig, "%r (ts=%s): %d ill-formed candidates; first (latent=%s): %s span=%s len=%d: %s" % (case["t"], case["ts"], len(found), lat, shown, span, ln, pr), key, cls)
     return C.ok(key, cls, nt=ncand > 0, obs_={"text": case["t"], "ts": case["ts"], "candidates_checked": ncand})
+
+
+def setup_worker(ctx):
+    # rule-application signatures (which rule consumed what, with which fields present): reported as coverage
+    ctx["mon"].track_feat = True
+    ctx["feats"] = set()
+
+
+def worker_summary(ctx):
+    return {"feats": sorted(ctx["feats"])}
+
+
+def extra_coverage(results, summaries):
+    feats = set()
+    for s in summaries:
+        feats |= set((s.get("extra") or {}).get("feats", []))
+    return {"rule_application_signatures_observed": len(feats),
+            "rule_application_signatures_sample": sorted(feats)[:: max(1, len(feats) // 12)][:12]}
 
 
 def post_check(results, summaries, events, rules, tier):
